@@ -1430,7 +1430,10 @@ class Store:
                 topology = topology or {}
 
             # get the daughter flow
-            if 'flow' in daughter and daughter['flow']:
+            if daughter.get('flow') is not None:
+                # also when it is empty: daughters that bring their own
+                # steps without dependencies do not inherit the flow
+                # of the mother's steps
                 flow = daughter['flow']
             else:
                 # if no flow provided, copy the mother's flow
